@@ -24,6 +24,7 @@ META = {
              "case = {document kind, mutation}; non-trivial when mutated"),
     "required": ["monitor:schema-identity-file", "monitor:schema-paths-compared", "monitor:version-strings",
                  "monitor:acceptance-agreement-strict", "monitor:acceptance-agreement-lax",
+                 "monitor:validator-key-set", "monitor:validator-tag-set",
                  "expect:accept", "expect:reject"],
     "reach": ["hugr._serialization.tys:model_rebuild", "hugr._serialization.serial_hugr:SerialHugr._pydantic_rebuild",
               "hugr._serialization.serial_hugr:serialization_version"],
@@ -267,6 +268,8 @@ def acceptance(ctx, mode, cases):
     tschema = json.loads((env.REPO / "specification" / "schema" / ("testing_" + fn)).read_text())
     val["testing"] = jsonschema.Draft202012Validator({"$ref": "#/$defs/TestingHugr", "$defs": tschema["$defs"]})
     model = {"hugr": SerialHugr, "package": Package, "extension": Extension, "testing": TestingHugr}
+    if ctx.shard == 0:
+        validator_keys(ctx, mode, model, {"hugr": schema, "package": schema, "extension": schema, "testing": tschema})
     for case in cases:
         kind, mop, doc, exp = case["kind"], case["mutation"], case["doc"], case["expect"][0 if strict else 1]
         ctx.count(f"monitor:acceptance-agreement-{mode}")
@@ -292,6 +295,65 @@ def acceptance(ctx, mode, cases):
             # both agree with each other but not with the operator's intent: a harness expectation problem
             ctx.disc(None, f"operator-expectation[{mode}.{mop}]", rec, exp, js, stratum="acceptance", case=rec,
                      prop="HARNESS")
+
+
+def validator_keys(ctx, mode, models, schemas):
+    """What pydantic's schema emission cannot show: the keys the LIVE validator of every model reads (validation
+    aliases included) and the tags its tagged unions dispatch on, taken from the compiled validator's own description
+    (`__pydantic_core_schema__`), must be the published definition's property names / discriminator tags."""
+    for kind, M in models.items():
+        seen = {}
+
+        def walk(x):
+            if isinstance(x, dict):
+                if x.get("type") == "model" and isinstance(x.get("cls"), type):
+                    seen.setdefault(x["cls"], x)
+                for k, v in x.items():
+                    if k not in ("metadata", "cls"):
+                        walk(v)
+            elif isinstance(x, (list, tuple)):
+                for v in x:
+                    walk(v)
+
+        walk(M.__pydantic_core_schema__)
+        defs = schemas[kind]["$defs"]
+        for cls, node in seen.items():
+            d = defs.get(cls.__name__)
+            inner = node["schema"]
+            while inner.get("type") in ("function-wrap", "function-before", "function-after", "default", "nullable"):
+                inner = inner["schema"]
+            case = {"schema": f"validator-keys {mode} {kind} {cls.__name__}"}
+            if d is None or d.get("title", cls.__name__) != cls.__name__:
+                ctx.count("observed:model-without-published-definition")
+                continue
+            if inner.get("type") == "model-fields":
+                ctx.count("monitor:validator-key-set")
+                by_name = bool((node.get("config") or {}).get("populate_by_name")
+                               or (node.get("config") or {}).get("validate_by_name"))
+                keys = set()
+                for name, f in inner["fields"].items():
+                    va = f.get("validation_alias")
+                    if va is None:
+                        keys.add(name)
+                        continue
+                    if by_name:
+                        keys.add(name)
+                    if isinstance(va, str):
+                        keys.add(va)
+                    else:   # one path, or a list of alternative paths: the first element is the key read
+                        paths = va if va and isinstance(va[0], list) else [va]
+                        keys.update(str(pth[0]) for pth in paths if pth)
+                want = set(d.get("properties", {}))
+                if keys != want:
+                    ctx.disc(None, "validator-reads-other-keys", [mode, kind, cls.__name__], sorted(want), sorted(keys),
+                             stratum="schema", case=case)
+            elif inner.get("type") == "tagged-union":
+                ctx.count("monitor:validator-tag-set")
+                want = set((d.get("discriminator") or {}).get("mapping") or {})
+                got = {str(k) for k in inner["choices"]}
+                if want and got != want:
+                    ctx.disc(None, "validator-dispatches-on-other-tags", [mode, kind, cls.__name__], sorted(want),
+                             sorted(got), stratum="schema", case=case)
 
 
 def gen_cases(ctx, n):
@@ -338,5 +400,7 @@ def replay(ctx, rec):
             mop, d, es, el = mutate(r, kind, doc)
         c = [{"kind": kind, "mutation": mop, "doc": d, "expect": [es, el], "rng": case["rng"]}]
         acceptance(ctx, case.get("mode", "strict"), c)
+    elif str(case.get("schema", "")).startswith("validator-keys"):
+        acceptance(ctx, case["schema"].split()[1], [])
     else:
         schema_identity(ctx)
